@@ -174,7 +174,7 @@ def msg_response_vote(ctx):
         ctx.prove(Eq(so.get('raftLeader'), NodeV(so.U)), 'C03:R4.leader-is-self')
         mt_, voters, obs = so.cell('raftMatchIndex'), so.cell('otherNodes').bits, so.cell('readonlyNodes').bits
         ctx.prove(And(*[Implies(Or(voters[i], obs[i]), And(mt_.pres[i], Eq(mt_.vals[i], 0))) for i in range(so.U)]),
-                  'C03+C04:R4.matchIndex-reset')
+                  'C03+C04+C01:R4.matchIndex-reset')
         lr = so.cell('lastResponseTime')
         ctx.prove(And(*[Implies(voters[i], lr.pres[i]) for i in range(so.U)]), 'C20:R4.lastResponse-initialised')
     else:
